@@ -18,6 +18,7 @@ type (
 	EIdent struct{ Name string }
 	EInt   struct{ V *big.Int }
 	EStr   struct{ V string }
+	EReal  struct{ S string }
 	EBool  struct{ V bool }
 	ENil   struct{}
 	EUnary struct {
@@ -87,6 +88,15 @@ func lex(s string) ([]tok, error) {
 			j := i
 			for j < len(s) && (unicode.IsDigit(rune(s[j])) || s[j] == '_' || s[j] == 'x' || (s[j] >= 'a' && s[j] <= 'f') || (s[j] >= 'A' && s[j] <= 'F')) {
 				j++
+			}
+			if j+1 < len(s) && s[j] == '.' && unicode.IsDigit(rune(s[j+1])) {
+				k := j + 1
+				for k < len(s) && unicode.IsDigit(rune(s[k])) {
+					k++
+				}
+				toks = append(toks, tok{"real", s[i:k]})
+				i = k
+				continue
 			}
 			toks = append(toks, tok{"int", strings.ReplaceAll(s[i:j], "_", "")})
 			i = j
@@ -258,6 +268,8 @@ func (p *parser) primary() Expr {
 			p.fail("bad int %q", t.text)
 		}
 		return &EInt{v}
+	case "real":
+		return &EReal{t.text}
 	case "str":
 		return &EStr{t.text}
 	case "ident":
